@@ -1175,7 +1175,8 @@ pub fn parse(lex_tokens: &Vec<LexerToken>) -> Result<ParseResult, CompilerError>
 
                             // if its a subexpression with no right
                             // it was at the end of the expression and should be dropped
-                            if left_node.definition == Definition::Subexpression && left_node.get_right() == Some(current_id) {
+                            // (a trailing `;` is a sub-expression separator just like a trailing blank line)
+                            if left_node.secondary_definition == SecondaryDefinition::Subexpression && left_node.get_right() == Some(current_id) {
                                 // set the subexpression's left's parent to its parent
                                 let new_parent = left_node.get_parent();
                                 let l = left_node.get_left();
